@@ -256,6 +256,11 @@ fn sameline_case(ctx: &Ctx, t: &mut Tape, st: &mut Stats) -> Result<(), Fail> {
         ("`ZM ", false),
         ("42 ", false),
         ("\\esc ", false),
+        // a string literal continued over a line break whose closing quote is on the include's line (seed C10e),
+        // a block comment that ends on the include's line, an escaped identifier
+        ("\"s\\\nt\" ", false),
+        ("/* m\nc */ ", true),
+        ("x = \"p\\\nq\\\nr\"; ", false),
     ];
     let after_opts: &[(&str, bool)] = &[("", true), ("  ", true), (" // c", true), (" /* c */", true), (" ta", false), (" ;", false), (" \"s\"", false), (" `ZM", false), (" `celldefine", false)];
     let (b, b_triv) = *t.pick(before_opts);
